@@ -901,8 +901,9 @@ var c17FixedTargets = []string{
 }
 
 type c17Replay struct {
-	Case c17Case `json:"case"`
-	Kind string  `json:"kind"`
+	Case   c17Case    `json:"case"`
+	Kind   string     `json:"kind"`
+	Relink *c17Relink `json:"relink,omitempty"` // a two-request history with a re-link in between (c17_relink_test.go)
 }
 
 func TestVerif_C17(t *testing.T) {
@@ -919,6 +920,20 @@ func TestVerif_C17(t *testing.T) {
 		}
 		w := c17NewWorld()
 		defer w.Close()
+		if rp.Relink != nil {
+			r := *rp.Relink
+			ok := false
+			c17RelinkRun(w, r.Layout, [2]string{r.Replace, r.With}, r.API, r.Prefix, r.Listing, r.Path, func(q c17Relink, kind, detail string) {
+				if q.Replace == r.Replace && !ok {
+					ok = true
+					fmt.Printf("replay %s -> %s %s\n", q, kind, detail)
+					res.Violate(c17RelinkKey(q, kind), q.String()+": "+detail, rp)
+				}
+			})
+			res.Replayed = &ok
+			res.Write(p)
+			return
+		}
 		kind, detail := c17RunFresh(w, &rp.Case)
 		fmt.Printf("replay %s on %s -> %q %s\n", rp.Case.String(), rp.Case.Layout, kind, detail)
 		ok := kind != ""
@@ -1165,5 +1180,6 @@ func TestVerif_C17(t *testing.T) {
 		}
 	}
 	res.Count("shrinks", int64(shrinks))
+	c17RelinkPart(p, res, w, len(items))
 	res.Write(p)
 }
